@@ -21,6 +21,13 @@ type symBV struct {
 	t string // SMT term of sort (_ BitVec w)
 	w int
 }
+
+// scaledTerm records an exact factorisation term == base * mul of a 64-bit term (valid while no
+// overflow occurs; users add the range assumption). It keeps ms/s/ns time arithmetic linear.
+type scaledTerm struct {
+	base string
+	mul  int64
+}
 type symBool struct{ t string } // Bool term
 type symFP struct{ t string }   // (_ FloatingPoint 11 53) term
 
@@ -116,6 +123,9 @@ type Exec struct {
 	mapOrderND  bool
 	mapOrderMax int
 	lastNow     string
+	scaled      map[string]scaledTerm
+	randDraws   int
+	maxRand     int
 	maxCex      int
 	tier        int
 }
@@ -1546,6 +1556,15 @@ func (e *Exec) symBinop(op token.Token, t types.Type, x, y value) value {
 			return symBV{"(bvlshr " + a + " " + b + ")", w}
 		}
 	}
+	if w == 64 {
+		switch op {
+		case token.LSS, token.LEQ, token.GTR, token.GEQ, token.EQL, token.NEQ:
+			// compare factorised terms (time arithmetic) on their bases
+			if a2, b2, ok := e.scaledPair(x, y, a, b); ok {
+				a, b = a2, b2
+			}
+		}
+	}
 	f := func(o string) value { return symBV{"(" + o + " " + a + " " + b + ")", w} }
 	g := func(o string) value { return symBool{"(" + o + " " + a + " " + b + ")"} }
 	sel := func(s, u string) string {
@@ -1556,11 +1575,17 @@ func (e *Exec) symBinop(op token.Token, t types.Type, x, y value) value {
 	}
 	switch op {
 	case token.ADD:
-		return f("bvadd")
+		r := f("bvadd")
+		e.noteScaled(r, op, x, y, a, b, w)
+		return r
 	case token.SUB:
-		return f("bvsub")
+		r := f("bvsub")
+		e.noteScaled(r, op, x, y, a, b, w)
+		return r
 	case token.MUL:
-		return f("bvmul")
+		r := f("bvmul")
+		e.noteScaled(r, op, x, y, a, b, w)
+		return r
 	case token.QUO:
 		if e.decide("(= " + b + " " + bvConst(0, w) + ")") {
 			panic(targetPanic{iface{t: types.Typ[types.String], v: "runtime error: integer divide by zero"}})
@@ -1798,4 +1823,176 @@ func symStaticType(t types.Type, x, y value) types.Type {
 		}
 	}
 	return t
+}
+
+
+func concreteI64(v value) (int64, bool) {
+	switch x := v.(type) {
+	case int:
+		return int64(x), true
+	case int64:
+		return x, true
+	case uint64:
+		return int64(x), true
+	case uint:
+		return int64(x), true
+	}
+	return 0, false
+}
+
+func gcd64(a, b int64) int64 {
+	if a < 0 {
+		a = -a
+	}
+	if b < 0 {
+		b = -b
+	}
+	for b != 0 {
+		a, b = b, a%b
+	}
+	return a
+}
+
+func (e *Exec) scaledOf(v value, term string) (scaledTerm, bool) {
+	if c, ok := concreteI64(v); ok {
+		_ = c
+		return scaledTerm{}, false
+	}
+	if st, ok := e.scaled[term]; ok {
+		return st, true
+	}
+	return scaledTerm{base: term, mul: 1}, true
+}
+
+// noteScaled propagates factorisations through +, - and * by constants (64-bit only).
+func (e *Exec) noteScaled(res value, op token.Token, x, y value, a, b string, w int) {
+	if w != 64 {
+		return
+	}
+	r, ok := res.(symBV)
+	if !ok {
+		return
+	}
+	if e.scaled == nil {
+		e.scaled = map[string]scaledTerm{}
+	}
+	cx, xc := concreteI64(x)
+	cy, yc := concreteI64(y)
+	switch op {
+	case token.MUL:
+		var st scaledTerm
+		var c int64
+		switch {
+		case xc && !yc:
+			st, _ = e.scaledOf(y, b)
+			c = cx
+		case yc && !xc:
+			st, _ = e.scaledOf(x, a)
+			c = cy
+		default:
+			return
+		}
+		if c == 0 || c == 1 || st.mul == 0 {
+			return
+		}
+		m := st.mul * c
+		if m/c != st.mul || m <= 0 {
+			return
+		}
+		e.scaled[r.t] = scaledTerm{base: st.base, mul: m}
+	case token.ADD, token.SUB:
+		o := "bvadd"
+		if op == token.SUB {
+			o = "bvsub"
+		}
+		var sx, sy scaledTerm
+		switch {
+		case xc && !yc:
+			sy, _ = e.scaledOf(y, b)
+			if sy.mul <= 1 || cx%sy.mul != 0 {
+				return
+			}
+			e.scaled[r.t] = scaledTerm{base: "(" + o + " " + bvConst(cx/sy.mul, 64) + " " + sy.base + ")", mul: sy.mul}
+			return
+		case yc && !xc:
+			sx, _ = e.scaledOf(x, a)
+			if sx.mul <= 1 || cy%sx.mul != 0 {
+				return
+			}
+			e.scaled[r.t] = scaledTerm{base: "(" + o + " " + sx.base + " " + bvConst(cy/sx.mul, 64) + ")", mul: sx.mul}
+			return
+		case xc && yc:
+			return
+		}
+		sx, _ = e.scaledOf(x, a)
+		sy, _ = e.scaledOf(y, b)
+		g := gcd64(sx.mul, sy.mul)
+		if g <= 1 {
+			return
+		}
+		bx, by := sx.base, sy.base
+		if sx.mul/g != 1 {
+			bx = "(bvmul " + bvConst(sx.mul/g, 64) + " " + bx + ")"
+		}
+		if sy.mul/g != 1 {
+			by = "(bvmul " + bvConst(sy.mul/g, 64) + " " + by + ")"
+		}
+		e.scaled[r.t] = scaledTerm{base: "(" + o + " " + bx + " " + by + ")", mul: g}
+	}
+}
+
+
+// scaledPair rewrites a comparison of base1*m1 with base2*m2 into one of the bases scaled by
+// m1/g and m2/g (g = gcd), under the no-overflow range assumption.
+func (e *Exec) scaledPair(x, y value, a, b string) (string, string, bool) {
+	var sx, sy scaledTerm
+	cx, xc := concreteI64(x)
+	cy, yc := concreteI64(y)
+	if xc && yc {
+		return "", "", false
+	}
+	if xc {
+		sx = scaledTerm{base: "", mul: cx}
+	} else if st, ok := e.scaled[a]; ok {
+		sx = st
+	} else {
+		return "", "", false
+	}
+	if yc {
+		sy = scaledTerm{base: "", mul: cy}
+	} else if st, ok := e.scaled[b]; ok {
+		sy = st
+	} else {
+		return "", "", false
+	}
+	// concrete side: value c = c/g * g
+	var g int64
+	switch {
+	case xc:
+		g = gcd64(cx, sy.mul)
+		if cx == 0 {
+			g = sy.mul
+		}
+	case yc:
+		g = gcd64(cy, sx.mul)
+		if cy == 0 {
+			g = sx.mul
+		}
+	default:
+		g = gcd64(sx.mul, sy.mul)
+	}
+	if g <= 1 {
+		return "", "", false
+	}
+	side := func(st scaledTerm, c int64, isC bool) string {
+		if isC {
+			return bvConst(c/g, 64)
+		}
+		e.assumeTimeRange(st.base, st.mul)
+		if st.mul/g == 1 {
+			return st.base
+		}
+		return "(bvmul " + bvConst(st.mul/g, 64) + " " + st.base + ")"
+	}
+	return side(sx, cx, xc), side(sy, cy, yc), true
 }
